@@ -84,6 +84,32 @@ fn gen_mode(src: &str, sm: bool, script: Script, canonical: bool) -> GenRun {
     GenRun { tokens: g.tokens.map(|t| t.to_string()).unwrap_or_else(|| format!("PANIC {:?}", g.observed.panicked)), graph: g.observed.graph, log }
 }
 
+/// tokens of generate() for `src` in a fresh process (child mode `c16-fresh`)
+fn fresh_process_tokens(exe: &std::path::Path, src: &str, sm: bool) -> Option<String> {
+    use std::io::Write;
+    let mut ch = std::process::Command::new(exe)
+        .args(["c16-fresh", "--seed", if sm { "1" } else { "0" }])
+        .stdin(std::process::Stdio::piped())
+        .stdout(std::process::Stdio::piped())
+        .stderr(std::process::Stdio::null())
+        .spawn()
+        .ok()?;
+    ch.stdin.take()?.write_all(src.as_bytes()).ok()?;
+    let out = ch.wait_with_output().ok()?;
+    if !out.status.success() {
+        return None;
+    }
+    String::from_utf8(out.stdout).ok()
+}
+
+pub fn c16_fresh_child(a: &Args) {
+    use std::io::Read;
+    let mut src = String::new();
+    std::io::stdin().read_to_string(&mut src).expect("stdin");
+    let r = gen_with(&src, a.seed == 1, vec![]);
+    print!("{}", r.tokens);
+}
+
 struct C16Job {
     def: usize,
     sm: bool,
@@ -298,6 +324,31 @@ pub fn c16(a: &Args) -> Report {
                 rep.count("history_order_runs", 1);
                 if t != bases[d * 2 + sm as usize].0.tokens && bases[d * 2 + sm as usize].1 {
                     rep.violations.push(viol("HISTORY-DEPENDENT", "c16", format!("{} sm={sm}", corpus[d].0), format!("the output for this definition differs when other definitions were expanded before it on the same thread ({} order)", if rev { "reverse" } else { "forward" }), json!({"spec": corpus[d].1, "src": srcs[d], "sm": sm, "script": [], "history": true})));
+                }
+            }
+        }
+    }
+    // the same against a FRESH PROCESS per definition: process-wide statics (caches keyed too
+    // coarsely, global counters) survive fresh threads, but not a fresh process
+    {
+        let exe = std::env::current_exe().expect("exe");
+        let outs: Vec<Option<String>> = (0..corpus.len() * 2)
+            .into_par_iter()
+            .map(|i| {
+                let (d, sm) = (i / 2, i % 2 == 1);
+                fresh_process_tokens(&exe, &srcs[d], sm)
+            })
+            .collect();
+        for (i, o) in outs.into_iter().enumerate() {
+            let (d, sm) = (i / 2, i % 2 == 1);
+            rep.count("traces_validated_against_impl", 1);
+            rep.count("fresh_process_runs", 1);
+            match o {
+                None => rep.notes.push(format!("fresh-process child failed for {}", corpus[d].0)),
+                Some(t) => {
+                    if t != bases[i].0.tokens && bases[i].1 && rep.violations.len() < 40 {
+                        rep.violations.push(viol("HISTORY-DEPENDENT", "c16", format!("{} sm={sm} (fresh process)", corpus[d].0), "the output of a fresh process that expands only this definition differs from the output inside the long-lived process that expanded the whole corpus (process-wide state)".into(), json!({"spec": corpus[d].1, "src": srcs[d], "sm": sm, "script": [], "history": true, "process": true})));
+                    }
                 }
             }
         }
@@ -910,7 +961,17 @@ pub fn replay(a: &Args, rec: &serde_json::Value) -> Report {
             let src = r["src"].as_str().map(|x| x.to_string()).unwrap_or_else(|| spec.render("T", ""));
             let src_b = src.clone();
             let base = std::thread::spawn(move || gen_with(&src_b, sm, vec![])).join().unwrap();
-            let differs = if r["history"].as_bool() == Some(true) {
+            let differs = if r["process"].as_bool() == Some(true) {
+                // long-lived side: the whole corpus first (forward), then this definition; fresh side: a child
+                let mut srcs: Vec<String> = c16_corpus(Tier::Quick).iter().map(|(_, s)| s.render("T", "")).collect();
+                srcs.extend(c16_raw().into_iter().map(|x| x.1));
+                for s in &srcs {
+                    let _ = gen_with(s, sm, vec![]);
+                }
+                let here = gen_with(&src, sm, vec![]).tokens;
+                let exe = std::env::current_exe().expect("exe");
+                fresh_process_tokens(&exe, &src, sm).map_or(false, |t| t != here)
+            } else if r["history"].as_bool() == Some(true) {
                 // the whole corpus in both orders on one thread each; this definition's output must not change
                 let corpus = c16_corpus(Tier::Quick);
                 let mut found = false;
